@@ -59,6 +59,7 @@ type Instance struct {
 
 	deadline       time.Time
 	solverTimeouts int
+	Unconfirmed    bool
 	SeenInputs     map[string]string
 	BulkWitnesses  int
 	MaxWallS       float64
@@ -125,6 +126,9 @@ func (inst *Instance) Key() string {
 }
 
 func (inst *Instance) Inconclusive() bool {
+	if inst.Unconfirmed {
+		return true
+	}
 	for k := range inst.Ends {
 		if k == "unsupported" || k == "bound" || k == "enginebug" {
 			return true
